@@ -3,6 +3,7 @@ import Gopki.Model.Db
 import Gopki.Props.C02
 import Gopki.Lemmas.Instant
 import Gopki.Lemmas.CertRound
+import Gopki.Lemmas.AddDate
 /-! # C04 — validity period in the certificate equals the configured dates or duration
 
 The calendar is the proleptic Gregorian one on integer days (`Gopki.Base.Calendar`); the model of
@@ -84,5 +85,30 @@ theorem C04_validity_reaches_the_der (t : Gen.Tbs) (v : Der.Tlv) (h : Gen.tbsTlv
     ∃ r, X509.decTbs v = some r ∧ r.notBefore = t.notBefore ∧ r.notAfter = t.notAfter := by
   obtain ⟨r, _, _, hr, _, hf⟩ := CertRound.decTbs_tbsTlv t v h ht
   exact ⟨r, hr, hf.notBefore, hf.notAfter⟩
+
+/-- **a `duration` of N years, months and days is calendar-added to notBefore** (the arithmetic the model uses for
+    `AddDate`, as a theorem): from any instant — a `from` date at local midnight or the time of the run —, in any zone,
+    the end of validity shows the wall clock *year and month reached by counting months, day number plus N days, same
+    time of day*, whenever that day exists in that month.  When it does not (31 January + 1 month), Go normalises the
+    excess days into the following month; that rule is `Calendar.goDate` and is compared with the implementation on
+    every day of the range by the `validity` operation. -/
+theorem C04_duration_is_calendar_addition (t0 off : Int) (y mo d : Nat) :
+    let w := Calendar.wallOf t0 off
+    let Y' : Int := w.year + y + ((w.month : Int) + mo - 1) / 12
+    let M' : Nat := (((w.month : Int) + mo - 1) % 12).toNat + 1
+    w.day + d ≤ Calendar.daysInMonth Y' M' →
+    Calendar.wallOf (Calendar.addDate t0 off y mo d) off = ⟨Y', M', w.day + d, w.hour, w.minute, w.second⟩ :=
+  Calendar.addDate_calendar t0 off y mo d
+
+/-- every time of day, not only midnight: `goDate` shows the wall clock it was given -/
+theorem C04_goDate_wall (y : Int) (m d h mi s : Nat) (off : Int) (hv : Calendar.validDate y m d = true)
+    (hh : h < 24) (hmi : mi < 60) (hs : s < 60) :
+    Calendar.wallOf (Calendar.goDate y (m : Int) (d : Int) h mi s off) off = ⟨y, m, d, h, mi, s⟩ :=
+  Calendar.wallOf_goDate y m d h mi s off hv hh hmi hs
+
+/-- non-vacuity: 2025-03-05 00:00 two hours east of UTC, plus 1 year 2 months 3 days, is 2026-05-08 00:00 there;
+    and the hypothesis matters: 31 January plus one month is not "31 February" (Go yields 3 March) -/
+example : Calendar.wallOf (Calendar.addDate (Calendar.goDate 2025 3 5 0 0 0 7200) 7200 1 2 3) 7200 = ⟨2026, 5, 8, 0, 0, 0⟩ := by decide
+example : Calendar.wallOf (Calendar.addDate (Calendar.goDate 2025 1 31 0 0 0 0) 0 0 1 0) 0 = ⟨2025, 3, 3, 0, 0, 0⟩ := by decide
 
 end C04
